@@ -963,13 +963,17 @@ class XMLSchemaBase(XsdValidator, ElementPathMixin[Union[SchemaType, XsdElement]
             return self.maps.elements.get(tag)
         elif path[-1] == '*':
             try:
-                xsd_element = self.find(path[:-1] + tag, namespaces)
+                xsd_elements = self.findall(path[:-1] + tag, namespaces)
             except (ElementPathError, AssertionError):
                 # A tag not usable in a path (e.g. an invalid namespace URI, also
                 # refused by an assertion of the XPath parser if it starts with a digit)
-                xsd_element = None
-            if isinstance(xsd_element, XsdElement) and xsd_element.name == tag:
-                return xsd_element
+                xsd_elements = []
+
+            # An unqualified tag matches also the same local name in the default
+            # namespace: the declaration with the same name is not always the first
+            for xsd_element in xsd_elements:
+                if isinstance(xsd_element, XsdElement) and xsd_element.name == tag:
+                    return xsd_element
             else:
                 # not found, or matched by the head of a substitution group
                 return self.maps.elements.get(tag)
